@@ -288,9 +288,21 @@ class Context(object):
         completed = 0
         trans0 = self.transitions
         capped = False
+        per_state = None        # transitions per expanded state, measured on the previous level
+        per_trans = None        # seconds per transition, measured on the previous level
         for depth in range(1, max_depth + 1):
             if not frontier:
                 break
+            if time_cap and per_state is not None:
+                # a level is never interrupted (its coverage statement would be unclear): it is only started when the estimate of its cost
+                # - frontier x transitions per state x seconds per transition, both measured on the previous level - fits the time budget
+                est = len(frontier) * per_state * per_trans
+                if (time.time() - t0) + est > time_cap:
+                    capped = True
+                    self.caps.append("space {}: depth {} not started (estimated {:.0f}s for {} frontier states, time budget {}s); complete to depth {}".format(
+                        space, depth, est, len(frontier), time_cap, completed))
+                    break
+            t_level, tr_level, n_front = time.time(), self.transitions, len(frontier)
             random.Random(self.seed + depth).shuffle(frontier)
             n = max(1, min(len(frontier), self.jobs * 6))
             chunks = [frontier[i::n] for i in range(n)]
@@ -308,10 +320,9 @@ class Context(object):
                     nxt.append(hist)
             frontier = nxt
             completed = depth
-            if time_cap and time.time() - t0 > time_cap and depth < max_depth and frontier:
-                capped = True
-                self.caps.append("space {}: time cap {}s reached after completing depth {}".format(space, time_cap, depth))
-                break
+            dtr = max(1, self.transitions - tr_level)
+            per_state = dtr / float(max(1, n_front))
+            per_trans = (time.time() - t_level) / float(dtr)
         for c in seen:
             self.states.add(digest8("bfs:%s:%s" % (space, c)))
         self.bfs_info.append({"space": space, "distinct_states": len(seen), "completed_depth": completed,
